@@ -22,7 +22,7 @@ theorem rewrite_iff_due_at (w : World) (p : Plan) (hinv : Inv w) (hp : p.noFault
     exact ⟨⟨fun _ => hdue, fun _ => by omega⟩, by omega, fun hn => absurd hdue hn⟩
   · have hd' : isDue w = false := by simpa using hd
     obtain ⟨f, hf, hnlt⟩ := not_due_cases w hd
-    by_cases hm : f.content.magic = magicNumber ∧ f.content.file = w.fileId
+    by_cases hm : f.content.magic = magicNumber ∧ normOf f.content.file = normOf w.fileId
     · obtain ⟨h1, _, h3, h4⟩ := construct_reuse w p hgood hcoh hd' f hf hm.1 hm.2
       have hnot : ¬ Due w := by
         intro hdue
@@ -34,7 +34,7 @@ theorem rewrite_iff_due_at (w : World) (p : Plan) (hinv : Inv w) (hp : p.noFault
           · exact h hm.1
           · exact h hm.2
       exact ⟨⟨fun h => by omega, fun h => absurd h hnot⟩, by omega, fun _ => ⟨h3, h4⟩⟩
-    · have hm' : f.content.magic ≠ magicNumber ∨ f.content.file ≠ w.fileId := by
+    · have hm' : f.content.magic ≠ magicNumber ∨ normOf f.content.file ≠ normOf w.fileId := by
         by_cases h1 : f.content.magic = magicNumber
         · exact Or.inr (fun h2 => hm ⟨h1, h2⟩)
         · exact Or.inl h1
@@ -45,7 +45,7 @@ theorem rewrite_iff_due_at (w : World) (p : Plan) (hinv : Inv w) (hp : p.noFault
 theorem after_rewrite_current_at (w : World) (p : Plan) (hinv : Inv w) (hp : p.noFault) :
     ∃ c t, (construct defaultWriter w p).res = .served c ∧
       (construct defaultWriter w p).world.fs .mod = some ⟨c, t⟩ ∧ c.complete = true ∧
-      c.magic = magicNumber ∧ c.file = w.fileId ∧
+      c.magic = magicNumber ∧ normOf c.file = normOf w.fileId ∧
       (((construct defaultWriter w p).writes ≥ 1 ∨
           ∃ f, w.fs .mod = some f ∧ f.content.src = w.srcVer) → c.src = w.srcVer) := by
   obtain ⟨hgood, hcoh⟩ := hinv
@@ -55,14 +55,14 @@ theorem after_rewrite_current_at (w : World) (p : Plan) (hinv : Inv w) (hp : p.n
       fun _ => by simp [newContent]⟩
   · have hd' : isDue w = false := by simpa using hd
     obtain ⟨f, hf, hnlt⟩ := not_due_cases w hd
-    by_cases hm : f.content.magic = magicNumber ∧ f.content.file = w.fileId
+    by_cases hm : f.content.magic = magicNumber ∧ normOf f.content.file = normOf w.fileId
     · obtain ⟨h1, h2, h3, _⟩ := construct_reuse w p hgood hcoh hd' f hf hm.1 hm.2
       refine ⟨f.content, f.mtime, h2, by rw [h3, hf], hgood f hf, hm.1, hm.2, ?_⟩
       intro hor
       rcases hor with hw | ⟨f', hf', hs⟩
       · omega
       · rw [hf] at hf'; cases hf'; exact hs
-    · have hm' : f.content.magic ≠ magicNumber ∨ f.content.file ≠ w.fileId := by
+    · have hm' : f.content.magic ≠ magicNumber ∨ normOf f.content.file ≠ normOf w.fileId := by
         by_cases h1 : f.content.magic = magicNumber
         · exact Or.inr (fun h2 => hm ⟨h1, h2⟩)
         · exact Or.inl h1
